@@ -97,7 +97,7 @@ func runCancelledAfterWrite(e *Env, rep int) {
 	h.Await(tA, e.W)
 	// the other nodes answer; X's reply (if its handler ever answers) is lost with the stream
 	for i := 0; i < n; i++ {
-		if i != x {
+		if i != x || !steered { // (not steered: X's stream is intact and its handler must be let go, or the bystander waits by right)
 			plans[i].Open()
 		}
 	}
